@@ -11,8 +11,9 @@
                check_object_asserts (sets asserts_checked BEFORE running the asserts)
      eval/expr.rs want_field (asserts first, then the field's thunk)
 
-   A store is a vector of thunk cells and a vector of objects ("guards": an
-   object with one constant assertion, [assert true] or [assert false : "m"]).
+   A store is a vector of thunk cells and a vector of objects ("guards": layers
+   with lists of constant assertions, [assert true] or [assert false : "m"], one
+   flag per object, one undo marker per object).
    Every cell is a field of one object ([owner]).  The body of a cell is a
    small deterministic program over the cells it forces.
 
@@ -48,8 +49,26 @@ Inductive tstate :=
 
 Record cell := { owner : N; st : tstate }.
 
-(* an object with one assertion: [cond = None] passes, [Some m] fails with message m *)
-Record guard := { cond : option N; checked : bool }.
+(* an object: its layers, base first (`L0 + L1 + ... + Ln`), each with its list of
+   assertions (a constant each: [None] passes, [Some m] fails with message m), and ONE
+   flag for the whole object (ObjectData::asserts_checked).
+   check_object_asserts pushes the assertions of super_layers (reversed) and then of
+   self_layer on the state stack, each layer's list reversed: they therefore RUN from
+   the most derived layer down to the base, each layer's assertions in textual order,
+   and the first one that fails raises the error. *)
+Record guard := { layers : list (list (option N)); checked : bool }.
+
+Definition assert_order (ls : list (list (option N))) : list (option N) := concat (rev ls).
+
+Fixpoint first_fail (l : list (option N)) : option N :=
+  match l with
+  | [] => None
+  | Some m :: _ => Some m
+  | None :: t => first_fail t
+  end.
+
+(* the outcome of running all the assertions of the object: None = all pass *)
+Definition cond (g : guard) : option N := first_fail (assert_order (layers g)).
 
 Record store := { cells : list cell; guards : list guard }.
 
@@ -82,7 +101,7 @@ Definition set_state (s : store) (id : N) (t : tstate) : store :=
 
 Definition set_checked (s : store) (g : N) (b : bool) : store :=
   match nthN (guards s) g with
-  | Some gd => {| cells := cells s; guards := setN (guards s) g {| cond := cond gd; checked := b |} |}
+  | Some gd => {| cells := cells s; guards := setN (guards s) g {| layers := layers gd; checked := b |} |}
   | None => s
   end.
 
